@@ -745,9 +745,11 @@ fn emit_words(w: &mut CasesWriter, env_spec: &EnvSpec, cmd_texts: &[String], mod
     true
 }
 
-const WORD_VALUES: [&str; 18] = [
+const WORD_VALUES: [&str; 28] = [
     "a", "a b", " a ", "a:b", ":", "", "a::b", " : ", "ab", "b a:", "*", "a*b", "a\\*b", "\u{3000}a\u{3000}",
     "x\ty", ":a", "a: :b ", "ba",
+    // characters that are special to pathname expansion but not to trim patterns
+    ".bashrc", "..", "a.b", "/x", ".", "a/b", "?a", "a?b*", ".a.", "./a",
 ];
 
 const WORD_IFS: [Option<&str>; 11] = [
@@ -822,7 +824,7 @@ fn gen_units(r: &mut Rng, depth: u32, dq: bool, inner: bool, pat: bool) -> Strin
             0..=2 => {
                 // literal characters; never start an identifier right after `$x`
                 let pool: &[char] = if pat {
-                    &['a', 'b', '*', '?', ':']
+                    &['a', 'b', '*', '*', '?', '?', ':', '.', '/']
                 } else if dq || inner {
                     &['a', 'b', ':', ' ', ',']
                 } else {
@@ -921,6 +923,23 @@ fn stream_words(w: &mut CasesWriter, rng: &mut Rng, args: &Args) {
             let texts: Vec<String> = vec![cmd.join(" ")];
             assert!(emit_words(w, &e, &texts, &[true, false], "corpus"));
             emit_single(w, &e, &texts[0]);
+        }
+    }
+    // trim grid: values with a leading period, slashes and pattern characters against
+    // wildcard patterns; trims are plain pattern matching (XCU 2.13.1), not pathname
+    // expansion (2.13.3): `?` and `*` match a leading period and a slash
+    let trim_values = [".bashrc", "..", "a.b", "/x", ".", "a/b/c", "*a?", ".a.", ""];
+    let trim_pats = ["?", "*", "*.", ".*", "?*", "*?", "/*", "*/", "\\.", "'.'*", "??", "*.*", "\"?\"", "\\*", "?.", "*/*"];
+    for v in trim_values {
+        let e = EnvSpec {
+            vars: vec![("f".into(), v.into()), ("e".into(), "".into())],
+            positional: vec![v.into()],
+            nounset: false,
+        };
+        for op in ["#", "##", "%", "%%"] {
+            let words: Vec<String> = trim_pats.iter().map(|p| format!("\"${{f{op}{p}}}\"")).collect();
+            let texts = vec![words.join(" "), format!("${{1{op}?}} \"${{1{op}*}}\"")];
+            assert!(emit_words(w, &e, &texts, &[true, false], "trimgrid"), "trim grid: {texts:?}");
         }
     }
     let mut nopos = base.clone();
